@@ -427,7 +427,170 @@ def configs(tier):
     return out
 
 
+# ---------------------------------------------------------------------------
+# Part P: the lock across PROCESSES (real flock, real fork)
+
+def _contender(path, q):
+    """Runs in a child process: one attempt to open a writer, commit a
+    document if it got one."""
+    try:
+        core.setup_process(0)
+        # (segment names come from `random`: the child must not repeat the
+        # parent's sequence, or it re-creates an existing segment's name)
+        random.seed("c04-contender-%d" % os.getpid())
+        from whoosh import index as windex
+        from whoosh.index import LockError
+        ix = windex.open_dir(path)
+        try:
+            w = ix.writer(timeout=0.0)
+        except LockError:
+            q.put("LockError")
+            return
+        w.add_document(key=u"child", text=u"child")
+        w.commit(merge=False)
+        q.put("committed:%d" % ix.latest_generation())
+    except BaseException as e:
+        q.put("exc:%r %s" % (e, traceback.format_exc()[-700:]))
+
+
+def _helper_sleep():
+    import time
+    time.sleep(120)
+
+
+def proc_case(case):
+    """One writer (plain / multi-process front-end) in this process with
+    every ending, optionally a helper process forked while the transaction is
+    open that outlives it; a second PROCESS tries to write while the
+    transaction is open (must get LockError) and again after it ended (must
+    get the lock and commit).  Returns [(kind, text)]."""
+    import multiprocessing
+    from whoosh import index as windex
+    from whoosh.index import LockError
+    mp = multiprocessing.get_context("fork")
+    d = core.fresh_dir("c04p")
+    problems = []
+    kids = []
+    w = None
+    try:
+        ix = windex.create_in(d, schema())
+        w0 = ix.writer()
+        w0.add_document(key=u"init", text=u"init")
+        w0.commit()
+        gen0 = ix.latest_generation()
+        fe = case["frontend"]
+        kw = {}
+        if fe.startswith("mp"):
+            kw = {"procs": 2, "batchsize": 1}
+            if fe == "mp2multi":
+                kw["multisegment"] = True
+
+        def attempt():
+            q = mp.Queue()
+            p = mp.Process(target=_contender, args=(d, q))
+            p.start()
+            try:
+                r = q.get(timeout=60)
+            except Exception:
+                r = "no-answer"
+            p.join(30)
+            if p.is_alive():
+                p.terminate()
+            return r
+
+        end = case["end"]
+        during = None
+        try:
+            if end in ("raise", "with_ok"):
+                try:
+                    with ix.writer(**kw) as w:
+                        w.add_document(key=u"a", text=u"a")
+                        w.add_document(key=u"b", text=u"b")
+                        if case["helper"]:
+                            h = mp.Process(target=_helper_sleep)
+                            h.start()
+                            kids.append(h)
+                        during = attempt()
+                        if end == "raise":
+                            raise Boom()
+                except Boom:
+                    pass
+            else:
+                w = ix.writer(**kw)
+                w.add_document(key=u"a", text=u"a")
+                w.add_document(key=u"b", text=u"b")
+                if case["helper"]:
+                    h = mp.Process(target=_helper_sleep)
+                    h.start()
+                    kids.append(h)
+                during = attempt()
+                if end == "commit":
+                    w.commit(merge=False)
+                else:
+                    w.cancel()
+        except Exception as e:
+            problems.append(("proc-exc:%s" % type(e).__name__, "writer (%s, %s) raised %r\n%s" % (fe, end, e, traceback.format_exc()[-600:])))
+            return problems
+        if during != "LockError":
+            problems.append(("second-process-not-excluded", "a second process asking for a writer while the %s writer's transaction was open got %r instead of LockError" % (fe, during)))
+        committed = end in ("commit", "with_ok")
+        after = attempt()
+        want_gen = gen0 + (1 if committed else 0) + 1
+        if after == "LockError":
+            problems.append(("lock-not-released", "after %s of the %s writer%s a second process still gets LockError" % (
+                end, fe, " (a helper process forked during the transaction is still alive)" if case["helper"] else "")))
+        elif after != "committed:%d" % want_gen:
+            problems.append(("generation", "second process after %s: %r, expected committed:%d" % (end, after, want_gen)))
+        else:
+            with windex.open_dir(d).searcher() as s:
+                keys = sorted(f["key"] for f in s.all_stored_fields())
+            want = sorted([u"init", u"child"] + ([u"a", u"b"] if committed else []))
+            if keys != want:
+                problems.append(("lost-update", "documents after both writers: %r, expected %r" % (keys, want)))
+        return problems
+    finally:
+        # sub-writer processes of a cancelled multi-process writer are not
+        # stopped by the library; do not leave them (or the helper) behind
+        for t in list(getattr(w, "tasks", None) or []) + kids:
+            try:
+                if t.is_alive():
+                    t.terminate()
+                t.join(5)
+            except Exception:
+                pass
+        import multiprocessing as _m
+        for c in _m.active_children():
+            try:
+                c.terminate()
+                c.join(5)
+            except Exception:
+                pass
+        shutil.rmtree(d, ignore_errors=True)
+
+
+def proc_cases():
+    for fe in ("plain", "mp2", "mp2multi"):
+        for end in ("commit", "cancel", "raise", "with_ok"):
+            for helper in (False, True):
+                yield {"part": "proc", "frontend": fe, "end": end, "helper": helper}
+
+
+def proc_task(t):
+    acc = core.Acc()
+    for case in t[1]:
+        acc.count("evaluations")
+        acc.count("process_cases")
+        acc.count("traces_validated_against_impl")
+        acc.count("distinct_nontrivial")
+        for kind, text in proc_case(case):
+            acc.violation("processes:%s:%s%s|%s" % (case["frontend"], case["end"], ":helper" if case["helper"] else "", kind),
+                          case, text)
+    return acc.result()
+
+
 def task(t):
+    if t[0] == "proc":
+        return proc_task(t)
     cfg, bound, max_execs, seed = t
     cfg = dict(cfg, seed=seed)
     acc = core.Acc()
@@ -447,13 +610,20 @@ def run(ctx):
             cap = 60000
         tasks.append((cfg, bound, cap, ctx.seed))
     ctx.extra["configs"] = len(tasks)
+    pc = list(proc_cases())
+    for i in range(0, len(pc), 3):
+        tasks.append(("proc", pc[i:i + 3]))
     ctx.rule = ("for each configuration (2-3 writer threads x endings {commit, cancel, exception in with-block, "
                 "with-block ok, AsyncWriter (direct or buffering + its replay thread) against a writer that keeps its transaction open} x {one Index object per thread, one shared Index object} x {no timeout, polling timeout} x {FileStorage+flock, RamStorage}): every schedule "
                 "with at most B preemptions (B=2 for two writers, 1 for three; thorough 3/2) at storage-call, "
                 "lock and polling-sleep granularity is executed on the real code; states = distinct (per-thread "
                 "progress, directory image signature) pairs seen at scheduling decisions, summed over "
                 "configurations; transitions = scheduling steps executed; an execution counts as "
-                "non-trivial when it deviates from the default non-preemptive schedule")
+                "non-trivial when it deviates from the default non-preemptive schedule.  Part P (processes): "
+                "{plain, MpWriter 2 procs merged / multisegment} x {commit, cancel, exception in with-block, "
+                "with-block ok} x {no helper, a helper process forked while the transaction is open and "
+                "outliving it}: a second PROCESS asks for a writer during (must get LockError) and after the "
+                "transaction (must get the lock, commit, and find exactly the committed documents)")
     ctx.assumptions = ["threads share the index only through the storage layer and the lock objects (scheduling "
                        "points there are sufficient); time is virtual: polling sleeps advance a virtual clock",
                        "flock between two file descriptors of one process excludes like between processes",
@@ -468,6 +638,10 @@ def run(ctx):
 
 
 def replay(case):
+    if case.get("part") == "proc":
+        core.setup_process(0)
+        pr = proc_case(case)
+        return {"ok": not pr, "what": pr}
     core.setup_process(case["cfg"].get("seed", 0))
     cfg = case["cfg"]
     template = make_template() if cfg["storage"] == "file" else None
